@@ -113,7 +113,7 @@ fn contents(n: usize, mode: u32, seed: u32) -> Vec<f32> {
         2 => {
             // distinct payload plus signed zero / subnormal / large entries at seed-chosen places
             let mut v: Vec<f32> = (0..n).map(|i| (i as f32 + 1.0) * 1.0009765625).collect();
-            let specials = [-0.0f32, 0.0, f32::from_bits(1), -f32::from_bits(7), f32::MAX, f32::MIN, 1e-38, -1e38];
+            let specials = [-0.0f32, 0.0, f32::from_bits(1), -f32::from_bits(7), f32::MAX, f32::MIN, 1e-38, -1e38, f32::INFINITY, f32::NEG_INFINITY];
             for (j, s) in specials.iter().enumerate() {
                 let pos = (seed as usize).wrapping_mul(2654435761).wrapping_add(j * 7919) % n;
                 v[pos] = *s;
@@ -283,7 +283,7 @@ impl Prop for C14 {
         t.pick(1_000_000, 100_000_000)
     }
     fn rule(&self) -> String {
-        "tape-decoded (operation, source shape with axes 1..6 (thorough 1..12; one case in 40 is a large tensor of >= 16384 elements with 1..7+ channels), target = a factorisation of the element count or a shape with a different count, contents class incl. signed zeros/subnormals/f32::MAX, chains of up to 5 reshapes optionally via a vector). Oracle: explicit row-major index arithmetic c*H*W+h*W+w, bitwise. Non-trivial: >= 2 axes > 1 and height != width. Distinct = (operation, source shape, target shape).".into()
+        "tape-decoded (operation, source shape with axes 1..6 (thorough 1..12; one case in 40 is a large tensor of >= 16384 elements with 1..7+ channels), target = a factorisation of the element count or a shape with a different count, contents class incl. signed zeros/subnormals/f32::MAX/+-infinity, chains of up to 5 reshapes optionally via a vector). Oracle: explicit row-major index arithmetic c*H*W+h*W+w, bitwise. Non-trivial: >= 2 axes > 1 and height != width. Distinct = (operation, source shape, target shape).".into()
     }
     fn run_case(&self, tape: &[u32], ev: &mut CaseEv) -> CheckResult {
         check(&decode(tape, self.0), ev)
